@@ -1,7 +1,7 @@
 (* Property C01: an operator acts on arrays exactly as the matrix it represents.
    Only statements closed by [exact]; the lemmas live in OpProofs.v / ToDense.v / Dtype.v. *)
 From Coq Require Import List Arith Bool ZArith.
-From Core Require Import Base Kron Op OpProofs ToDense ZIInst DtypeTable Dtype DtypeProofs.
+From Core Require Import Base Kron Op OpProofs ToDense MatVec ZIInst DtypeTable Dtype DtypeProofs.
 Import ListNotations.
 
 (* forward product = represented matrix times operand, with the right shape, for every operator tree,
@@ -15,6 +15,12 @@ Theorem C01_matmat_shape : forall (R : Type) (RR : Ring R) (CR : CRing R) (e : o
   wf e = true -> nr X = snd (shape e) -> nr (matmat e X) = fst (shape e) /\ nc (matmat e X) = nc X.
 Proof. intros R RR CR e X Hwf HX. destruct (proj1 (mm_den e Hwf) X HX) as (H1 & H2 & _). exact (Logic.conj H1 H2). Qed.
 Print Assumptions C01_matmat_shape.
+
+(* 1-D operand: A @ x (reshape to a column, product, flatten) is the represented matrix times the vector *)
+Theorem C01_matvec_den : forall (R : Type) (RR : Ring R) (CR : CRing R) (e : op (R:=R)) (x : nat -> R),
+  wf e = true -> forall i, i < fst (shape e) -> matvec e x i = sum (snd (shape e)) (fun j => rmul (den e i j) (x j)).
+Proof. intros R RR CR. exact (@matvec_den R RR CR). Qed.
+Print Assumptions C01_matvec_den.
 
 (* densification: the kind-specific paths (Dense, Diagonal, Kronecker = reduce(np.kron), KronSum = reduce(kronsum),
    BlockDiag = block_diag) and both generic paths (identity on the right; on the left, through the backward product,
